@@ -389,6 +389,7 @@ def c20(rep, tier, seed):
     ]
     suite_repr.gen(rep, tier)
     suite_repr.values(rep)
+    suite_repr.state(rep, tier)
     suite_vec.forms(rep, ("history_read",))
     suite_heap.gen(rep, tier, "obsv2", ("obs_repr",))
     suite_heap.gen(rep, tier, "obst3", ("obs_repr",))       # incl. zero-row tables renamed through a live column
